@@ -397,6 +397,22 @@ pub fn compile_graph_term(
     }
 }
 
+// The optimizer and the executor follow a plan recursively, one stack frame
+// per chained operator, so lowering refuses to chain more operators than a
+// thread's stack can follow. Joining one more triple pattern of a basic graph
+// pattern costs PLAN_SCAN_COST, chaining any other operator PLAN_OPERATOR_COST.
+const PLAN_DEPTH_BUDGET: usize = 4096;
+const PLAN_OPERATOR_COST: usize = 8;
+const PLAN_SCAN_COST: usize = 1;
+
+fn charge_plan_depth(spent: &mut usize, cost: usize) -> Result<(), String> {
+    *spent += cost;
+    if *spent > PLAN_DEPTH_BUDGET {
+        return Err("query is too complex: its plan chains more operators than can be executed".to_string());
+    }
+    Ok(())
+}
+
 /// Lowers the unified recursive graph-pattern AST into the existing logical
 /// optimizer algebra.
 pub fn build_logical_plan_from_group(
@@ -404,7 +420,8 @@ pub fn build_logical_plan_from_group(
     prefixes: &HashMap<String, String>,
     database: &mut SparqlDatabase,
 ) -> Result<LogicalOperator, String> {
-    build_logical_plan_from_group_in_scope(pattern, prefixes, database, &GraphTerm::Default)
+    let mut spent = 0;
+    build_logical_plan_from_group_in_scope(pattern, prefixes, database, &GraphTerm::Default, &mut spent)
 }
 
 /// Lowers a graph pattern while retaining the graph scope on every scan.
@@ -418,12 +435,14 @@ fn build_logical_plan_from_group_in_scope(
     prefixes: &HashMap<String, String>,
     database: &mut SparqlDatabase,
     graph_scope: &GraphTerm,
+    spent: &mut usize,
 ) -> Result<LogicalOperator, String> {
     match pattern {
         GroupGraphPattern::Unit => Ok(LogicalOperator::unit()),
         GroupGraphPattern::Bgp(patterns) => {
             let mut plan = LogicalOperator::unit();
             for pattern in patterns {
+                charge_plan_depth(spent, PLAN_SCAN_COST)?;
                 let triple = compile_triple(*pattern, prefixes, database);
                 let scan = LogicalOperator::quad_scan(QuadPattern {
                     subject: triple.0,
@@ -452,6 +471,7 @@ fn build_logical_plan_from_group_in_scope(
                         filters.push(filter);
                     }
                     GroupGraphPattern::Bind((function, arguments, output)) => {
+                        charge_plan_depth(spent, PLAN_OPERATOR_COST)?;
                         plan = LogicalOperator::bind(
                             plan,
                             (*function).to_string(),
@@ -463,17 +483,25 @@ fn build_logical_plan_from_group_in_scope(
                         );
                     }
                     _ => {
+                        let cost = if matches!(pattern, GroupGraphPattern::Bgp(_)) {
+                            PLAN_SCAN_COST
+                        } else {
+                            PLAN_OPERATOR_COST
+                        };
+                        charge_plan_depth(spent, cost)?;
                         let next = build_logical_plan_from_group_in_scope(
                             pattern,
                             prefixes,
                             database,
                             graph_scope,
+                            spent,
                         )?;
                         plan = append_join(plan, next);
                     }
                 }
             }
             for filter in filters {
+                charge_plan_depth(spent, PLAN_OPERATOR_COST)?;
                 plan = LogicalOperator::selection(
                     plan,
                     convert_filter_to_condition(filter, prefixes, database),
@@ -482,18 +510,28 @@ fn build_logical_plan_from_group_in_scope(
             Ok(plan)
         }
         GroupGraphPattern::Union(branches) => {
-            let branches = branches
-                .iter()
-                .map(|branch| {
-                    build_logical_plan_from_group_in_scope(branch, prefixes, database, graph_scope)
-                })
-                .collect::<Result<Vec<_>, _>>()?;
-            Ok(LogicalOperator::union(branches))
+            // Branches sit side by side: a union is as deep as its deepest branch.
+            let before = *spent;
+            let mut deepest = before;
+            let mut lowered = Vec::with_capacity(branches.len());
+            for branch in branches {
+                *spent = before;
+                lowered.push(build_logical_plan_from_group_in_scope(
+                    branch,
+                    prefixes,
+                    database,
+                    graph_scope,
+                    spent,
+                )?);
+                deepest = deepest.max(*spent);
+            }
+            *spent = deepest;
+            Ok(LogicalOperator::union(lowered))
         }
         GroupGraphPattern::Graph { name, pattern } => {
             let graph = compile_graph_term(name, prefixes, database)?;
             let input =
-                build_logical_plan_from_group_in_scope(pattern, prefixes, database, &graph)?;
+                build_logical_plan_from_group_in_scope(pattern, prefixes, database, &graph, spent)?;
             Ok(LogicalOperator::graph(input, graph))
         }
         GroupGraphPattern::Filter(filter) => Ok(LogicalOperator::selection(
@@ -511,7 +549,13 @@ fn build_logical_plan_from_group_in_scope(
         )),
         GroupGraphPattern::Values(values) => values_operator(values, prefixes, database),
         GroupGraphPattern::SubQuery(subquery) => {
-            build_logical_plan_from_subquery_in_scope(subquery, prefixes, database, graph_scope)
+            build_logical_plan_from_subquery_in_scope(
+                subquery,
+                prefixes,
+                database,
+                graph_scope,
+                spent,
+            )
         }
     }
 }
@@ -581,7 +625,14 @@ pub fn build_logical_plan_from_subquery(
     prefixes: &HashMap<String, String>,
     database: &mut SparqlDatabase,
 ) -> Result<LogicalOperator, String> {
-    build_logical_plan_from_subquery_in_scope(subquery, prefixes, database, &GraphTerm::Default)
+    let mut spent = 0;
+    build_logical_plan_from_subquery_in_scope(
+        subquery,
+        prefixes,
+        database,
+        &GraphTerm::Default,
+        &mut spent,
+    )
 }
 
 fn build_logical_plan_from_subquery_in_scope(
@@ -589,12 +640,14 @@ fn build_logical_plan_from_subquery_in_scope(
     prefixes: &HashMap<String, String>,
     database: &mut SparqlDatabase,
     graph_scope: &GraphTerm,
+    spent: &mut usize,
 ) -> Result<LogicalOperator, String> {
     let inner_plan = build_logical_plan_from_group_in_scope(
         &subquery.query.pattern,
         prefixes,
         database,
         graph_scope,
+        spent,
     )?;
     let projection = if subquery.query.variables == vec![("*", "*", None)] {
         None
